@@ -177,7 +177,7 @@ def run_case(case):
         try:
             if case['monitor'] == 'dense-online-merge':
                 method = {'and': oi.conjunction, 'or': oi.disjunction, 'implies': oi.implication, 'iff': oi.iff, 'xor': oi.xor,
-                          'add': oi.addition, 'sub': oi.subtraction}[case['op']]
+                          'add': oi.addition, 'sub': oi.subtraction, 'mul': oi.multiplication, 'div': oi.division, 'pow': oi.power}[case['op']]
                 r = oi.intersection(conv(case['a']), conv(case['b']), method)
                 out['calls'].append({'status': 'ok', 'value': canon_val([r[0], r[1], r[2], r[3]])})
             else:
@@ -185,7 +185,10 @@ def run_case(case):
                 modname, cls = {'and': ('stl.dense_time.online.and_operation', 'AndOperation'), 'or': ('stl.dense_time.online.or_operation', 'OrOperation'),
                                 'implies': ('stl.dense_time.online.implies_operation', 'ImpliesOperation'), 'iff': ('stl.dense_time.online.iff_operation', 'IffOperation'),
                                 'xor': ('stl.dense_time.online.xor_operation', 'XorOperation'), 'add': ('arithmetic.dense_time.online.addition_operation', 'AdditionOperation'),
-                                'sub': ('arithmetic.dense_time.online.subtraction_operation', 'SubtractionOperation')}[case['op']]
+                                'sub': ('arithmetic.dense_time.online.subtraction_operation', 'SubtractionOperation'),
+                                'mul': ('arithmetic.dense_time.online.multiplication_operation', 'MultiplicationOperation'),
+                                'div': ('arithmetic.dense_time.online.division_operation', 'DivisionOperation'),
+                                'pow': ('arithmetic.dense_time.online.pow_operation', 'PowOperation')}[case['op']]
                 op = getattr(importlib.import_module('rtamt.semantics.' + modname), cls)()
                 for (b1, b2) in case['batches']:
                     a1, a2 = conv(b1), conv(b2)
